@@ -186,7 +186,7 @@ Proof.
       { subst. cbn. reflexivity. }
       destruct TS as (-> & -> & -> & IX).
       destruct (ty =? tok_CLOSE).
-      { cbn [set3 u_discard]. destruct (0 <? u_discard fr x); [cbn; split; [reflexivity|apply (sbs_set3 (uw_stack fr x (u_discard fr x - 1) (u_stack fr x))); exact IX]|].
+      { cbn [set3 u_discard u_inOpen]. destruct (hd_close_fatal _ _); [cbn; reflexivity|]. destruct (0 <? u_discard fr x); [cbn; split; [reflexivity|apply (sbs_set3 (uw_stack fr x (u_discard fr x - 1) (u_stack fr x))); exact IX]|].
         apply upre_rel. change (Unsl.uhandle_close fr u_child u_close u_finish u_report (set3 x o a b) hdr) with (uhandle_close (set3 x o a b) hdr).
         rewrite close_set3. apply hr_map_rel. pose proof (close_inopen x hdr) as H. destruct (uhandle_close x hdr); [rewrite H; exact IX|exact I]. }
       assert (SAME : hr_rel (UOk fr x e2) (UOk fr (set3 x o a b) e2)) by (cbn; split; [reflexivity|apply sbs_set3; exact IX]).
@@ -195,7 +195,10 @@ Proof.
         change (Unsl.uhandle_token fr u_child u_finish u_report (set3 x o a b)) with (uhandle_token (set3 x o a b)).
         rewrite token_set3. apply hr_map_rel. pose proof (token_inopen x v) as H. destruct (uhandle_token x v); [rewrite H; exact IX|exact I]. }
       destruct (ty =? tok_ABORT).
-      { destruct r2; [exact SAME|]. apply upre_rel.
+      { destruct r2; [exact SAME|]. destruct hd_abort_in_index; apply upre_rel.
+        { cbn [set3 u_inOpen]. change (Unsl.uhandle_violation fr u_finish u_report (set3 x o a b) (u_inOpen fr x) false) with (uhandle_violation (set3 x o a b) (u_inOpen fr x) false).
+          rewrite hv_set3. destruct (uhandle_violation x (u_inOpen fr x) false) as [c3 es3|es3]; cbn; [|reflexivity].
+          split; [reflexivity|]. apply (sbs_set3 (uw_inOpen fr c3 false)). reflexivity. }
         change (Unsl.uhandle_violation fr u_finish u_report (set3 x o a b) false false) with (uhandle_violation (set3 x o a b) false false).
         rewrite hv_set3. apply hr_map_rel. pose proof (hv_inopen x false false) as H. destruct (uhandle_violation x false false); [rewrite H; exact IX|exact I]. }
       destruct (ty =? tok_INT). { destruct r2; [exact SAME|apply DEL]. }
